@@ -349,3 +349,10 @@ def test_fixed_F34_laostar_ignores_outcomes_listed_with_probability_zero():
     for init, succ in (({'start': 1.0}, {'goal': 1.0, 'pit': 0.0}), ({'start': 1.0, 'pit': 0.0}, {'goal': 1.0})):
         res = LAOStar(heuristic=lambda s: 0, seed=0).plan_on(_pit_mdp(init, succ))
         assert res.converged and res.initial_value == pytest.approx(-1.0)
+
+
+def test_fixed_F35_lrtdp_ignores_outcomes_listed_with_probability_zero():
+    from msdm.algorithms.lrtdp import LRTDP
+    for init, succ in (({'start': 1.0}, {'goal': 1.0, 'pit': 0.0}), ({'start': 1.0, 'pit': 0.0}, {'goal': 1.0})):
+        res = LRTDP(heuristic=lambda s: 0, seed=0, iterations=500).plan_on(_pit_mdp(init, succ))
+        assert res.solved['start'] and res.initial_value == pytest.approx(-1.0)
